@@ -13,6 +13,36 @@ Theorem C04_get_never_funnelled : forall fuel root x rl root' e,
 Proof. exact dict_get_no_funnelled. Qed.
 Print Assumptions C04_get_never_funnelled.
 
+(* Totality, for every tree and every string (ill-formed included) and every amount of fuel: every
+   exception the dict- and the list-rooted resolver raise belongs to the classes the lookups funnel
+   (ValueError, IndexError, KeyError, TypeError, SyntaxError); hence get and first never raise, and item
+   access raises only those classes. (By induction on fuel over the whole transliteration, fan-out loops
+   included.  What is not proved: that the real _find terminates; the model is fuelled.) *)
+Theorem C04_resolver_raises_only_funnelled : forall rl fuel root xs par parv fstr e,
+  find true rl fuel root xs par parv fstr = Raise e -> funnelled e = true.
+Proof. exact find_raises_funnelled. Qed.
+Print Assumptions C04_resolver_raises_only_funnelled.
+
+Theorem C04_list_resolver_raises_only_funnelled : forall rl fuel root xs par parv fstr e,
+  lfind rl fuel root xs par parv fstr = Raise e -> funnelled e = true.
+Proof. exact lfind_raises_funnelled. Qed.
+Print Assumptions C04_list_resolver_raises_only_funnelled.
+
+Theorem C04_get_never_raises : forall fuel root x rl root' r,
+  dict_get fuel root x false rl = Ok (root', r) -> forall e, r <> LRaise e.
+Proof. exact dict_get_total. Qed.
+Print Assumptions C04_get_never_raises.
+
+Theorem C04_list_get_never_raises : forall fuel root x rl root' r,
+  list_get fuel root x false rl = Ok (root', r) -> forall e, r <> LRaise e.
+Proof. exact list_get_total. Qed.
+Print Assumptions C04_list_get_never_raises.
+
+Theorem C04_item_access_raises_only_allowed : forall fuel root x root' e,
+  dict_getitem fuel root x = Ok (root', LRaise e) -> funnelled e = true.
+Proof. exact dict_getitem_raises_allowed. Qed.
+Print Assumptions C04_item_access_raises_only_allowed.
+
 (* Purity, for every string: the tree a resolver call returns is its input unless the
    call raised the "mutated" flag, which only the [new()] branch sets (partial: that the
    flag stays down for new()-free strings is not proved; see DESIGN 5/C04). *)
